@@ -15,16 +15,20 @@
  * Argued, not machine-checked: rely/guarantee soundness and atomicity (total modification order) of RMWs on one location. */
 MT *gh_mt;                       /* the storage under the protocol (assigned through __CPROVER_pointer_equals in the contract) */
 cv_i1 gh_tok_block;              /* this thread holds BLOCK(gh_mt)                                                            */
-cv_i8 gh_seen_busy; cv_i8 *gh_lin_ptr; cv_i64 gh_lin_cap;   /* observed at the exchange                                       */
+cv_i8 gh_seen_busy; cv_i8 *gh_lin_ptr; cv_i64 gh_lin_cap; cv_i8 gh_lin_byte;   /* observed at the exchange (gh_lin_byte = byte gh_G of the own block) */
+extern cv_i64 gh_G;
 unsigned gh_at_n; int gh_at_last_ord; int gh_at_last_op;    /* log: number of atomic instructions executed, last order (0 relaxed, 2 acquire, 3 release, 4 acq_rel, 5 seq_cst), last op (1 load, 2 store, 3 xchg) */
-#define TM_LOG gh_tok_block, gh_seen_busy, gh_lin_ptr, gh_lin_cap, gh_at_n, gh_at_last_ord, gh_at_last_op
+#define TM_LOG gh_tok_block, gh_seen_busy, gh_lin_ptr, gh_lin_cap, gh_lin_byte, gh_at_n, gh_at_last_ord, gh_at_last_op
 #define TM_BUSY_LOC (&gh_mt->_busy._M_base._M_i)
 #define TM_CAP_MAX ((1ul << 30) + 64)
 
 static void cv_env_other_threads(void) {                      /* rely step */
   if (gh_tok_block) return;                                   /* I hold BLOCK: nobody interferes */
   RS *r = (RS *)gh_mt;
-  if (nondet_bool()) {                                        /* somebody took the block, grew it, and (maybe) gave it back */
+#ifndef C19_TM_ENV_GROWS                                      /* units may split the two environment cases (cost); default: both */
+#define C19_TM_ENV_GROWS nondet_bool()
+#endif
+  if (C19_TM_ENV_GROWS) {                                     /* somebody took the block, grew it, and (maybe) gave it back */
     cv_i64 nc = nondet_size_t(); __CPROVER_assume(nc > r->_capacity && nc < TM_CAP_MAX);
     cv_i8 *nb = malloc(nc); __CPROVER_assume(nb != 0);
     if (r->_ptr) free(r->_ptr);                               /* their operator delete: my stale copies of the old pointer are dead */
@@ -38,12 +42,13 @@ cv_i8 cv_atomic_xchg_i8(cv_i8 *p, cv_i8 v, int ord) {
   cv_i8 old = *p; *p = v;
   __CPROVER_assert(v == 1, "protocol (guarantee): the busy flag is only ever exchanged with true");
   gh_seen_busy = old; gh_lin_ptr = ((RS *)gh_mt)->_ptr; gh_lin_cap = ((RS *)gh_mt)->_capacity;
+  gh_lin_byte = (gh_lin_ptr != 0 && gh_G < gh_lin_cap) ? gh_lin_ptr[gh_G] : 0;
   if (old == 0) gh_tok_block = 1;                             /* acquired */
   return old; }
 void cv_atomic_store_i8(cv_i8 *p, cv_i8 v, int ord) {
   gh_at_n++; gh_at_last_ord = ord; gh_at_last_op = 2;
   __CPROVER_assert(p == TM_BUSY_LOC, "protocol: the only atomic location is the storage's busy flag");
-  __CPROVER_assert(v == 0 && gh_tok_block, "protocol (guarantee): only the holder of the own block clears the busy flag");
+  __CPROVER_assert(v == 0 && gh_tok_block, "protocol (guarantee): the busy flag is only ever stored false, and only by the holder of the own block");
   *p = v; gh_tok_block = 0; }
 cv_i8 cv_atomic_load_i8(cv_i8 *p, int ord) {
   gh_at_n++; gh_at_last_ord = ord; gh_at_last_op = 1;
@@ -73,6 +78,7 @@ void cv_fence(int ord) { C19_NOT_IN_PROTOCOL("fence"); }
 #define MT_SEEN_BUSY gh_seen_busy
 #define MT_P0 gh_lin_ptr
 #define MT_C0 gh_lin_cap
+#define MT_BYTE0 gh_lin_byte
 #define MT_EXTRA_PRE (__CPROVER_pointer_equals(gh_mt, this_) && gh_tok_block <= 1 && (gh_tok_block ==> MT_BUSY(this_) == 1))
 #define MT_EXTRA_ASSIGNS , TM_LOG
 #define MT_EXTRA_POST (gh_at_n == __CPROVER_old(gh_at_n) + 1                                   /* exactly one atomic step: the deciding exchange */ \
